@@ -121,3 +121,27 @@ func VerifC08Replace(c *Cache, have, kind string, ttl uint32, haveCut, cut time.
 	}
 	return replaced, time.Time{}, 0, false
 }
+
+// VerifC08EntryTimes stores an answer with cut `cut` through the real write path
+// and refreshes it through ReplaceIfCurrent; returns the entry's cutUntil and
+// stored instants and the refreshed entry's cutUntil, exactly as kept.
+func VerifC08EntryTimes(c *Cache, cut time.Time) (cutUntil, stored, refreshedCut time.Time) {
+	m := new(dns.Msg)
+	m.SetQuestion("mono.c08.example.", dns.TypeA)
+	m.Response = true
+	m.Answer = []dns.RR{&dns.A{Hdr: dns.RR_Header{Name: "mono.c08.example.", Rrtype: dns.TypeA, Class: dns.ClassINET, Ttl: 300}, A: []byte{192, 0, 2, 1}}}
+	key := CacheKey{Question: m.Question[0], CD: false}.Hash()
+	c.store.SetFromResponseWithKey(key, m, cut, 1)
+	v, ok := c.store.positive.cache.Get(key)
+	if !ok {
+		return
+	}
+	e := v.(*CacheEntry)
+	cutUntil, stored = e.cutUntil, e.stored
+	if c.store.ReplaceIfCurrent(key, e, m, cut, 1) {
+		if v, ok := c.store.positive.cache.Get(key); ok {
+			refreshedCut = v.(*CacheEntry).cutUntil
+		}
+	}
+	return
+}
